@@ -335,7 +335,7 @@ func (ev *SpecEnv) ident(name string) Val {
 			return ev.constVal(cst)
 		}
 	}
-	specFail("unknown identifier %q", name)
+	specFail("unknown identifier %q (vars=%d addr=%v)", name, len(ev.vars), ev.addr)
 	return Val{}
 }
 
@@ -847,6 +847,30 @@ func (ev *SpecEnv) call(n *Node) Val {
 			alts = append(alts, sx("=", r, f))
 		}
 		return Val{T: fmt.Sprintf("(forall ((%s Ref)) (! (=> %s (= (select %s %s) (select %s %s))) :pattern ((select %s %s))))", r, smtOr(alts...), ev.hget(h), r, old, r, ev.hget(h), r), S: sortBool, Ty: tb}
+	case "call_result", "call_panics":
+		// call_result(f, args...) / call_panics(f, args...): result / panic behaviour of calling func value f (uninterpreted)
+		f := ev.eval(n.Args[0])
+		if f.Ty == nil {
+			specFail("%s: function value of unknown type", name)
+		}
+		sig, ok := f.Ty.Underlying().(*types.Signature)
+		if !ok {
+			specFail("%s: not a func value", name)
+		}
+		var as []Val
+		for _, a := range n.Args[1:] {
+			as = append(as, ev.eval(a))
+		}
+		if name == "call_panics" {
+			fn := c.declFun("panics!"+sigID(sig), append([]string{sortFunc}, sortsOf(as)...), sortBool)
+			return Val{T: sx(fn, append([]string{f.T}, termsOf(as)...)...), S: sortBool, Ty: tb}
+		}
+		if sig.Results().Len() != 1 {
+			specFail("call_result: function must have exactly one result")
+		}
+		rs := c.sortFor(sig.Results().At(0).Type())
+		fn := c.declFun("apply!"+sigID(sig), append([]string{sortFunc}, sortsOf(as)...), rs)
+		return Val{T: sx(fn, append([]string{f.T}, termsOf(as)...)...), S: rs, Ty: sig.Results().At(0).Type()}
 	case "elem_ref":
 		// elem_ref(s, i): the object identity (&s[i]) of element i of a slice of structs
 		x := ev.eval(n.Args[0])
